@@ -267,11 +267,13 @@ class GeneralCalibrationIndexKernel(IGeneralCalibrationIndexKernel):
 
         all_indices: List[int] = list(range(self.start_index, self.stop_index + 1))
         cycle_length: int = self.cycle_length
+        # Each state takes 2 slots (heralded + calibration) with heralded initialization, otherwise 1 slot
+        slots_per_state: int = 2 if self.heralded_initialization else 1
         if state == StateKey.STATE_0:
-            return all_indices[1::cycle_length]
+            return all_indices[1 * slots_per_state - 1::cycle_length]
         if state == StateKey.STATE_1:
-            return all_indices[3::cycle_length]
+            return all_indices[2 * slots_per_state - 1::cycle_length]
         if state == StateKey.STATE_2:
-            return all_indices[5::cycle_length]
+            return all_indices[3 * slots_per_state - 1::cycle_length]
         return []
     # endregion
